@@ -51,6 +51,21 @@ async fn l_stream(rq: RequestContext<LimitCtx>, b: StreamingBody) -> Result<Http
     }
     Ok(HttpResponseOk(json!({"len": all.len(), "fnv": fnv(&all).to_string(), "limit": rq.request_body_max_bytes()})))
 }
+#[derive(Deserialize, schemars::JsonSchema)]
+struct RestPath {
+    #[allow(dead_code)]
+    rest: Vec<String>,
+}
+/// the same three handlers behind a wildcard route (reached with an empty or a non-empty remainder)
+async fn lw_typed(rq: RequestContext<LimitCtx>, _p: dropshot::Path<RestPath>, b: TypedBody<Value>) -> Result<HttpResponseOk<Value>, HttpError> {
+    l_typed(rq, b).await
+}
+async fn lw_untyped(rq: RequestContext<LimitCtx>, _p: dropshot::Path<RestPath>, b: UntypedBody) -> Result<HttpResponseOk<Value>, HttpError> {
+    l_untyped(rq, b).await
+}
+async fn lw_stream(rq: RequestContext<LimitCtx>, _p: dropshot::Path<RestPath>, b: StreamingBody) -> Result<HttpResponseOk<Value>, HttpError> {
+    l_stream(rq, b).await
+}
 async fn l_health(_rq: RequestContext<LimitCtx>) -> Result<HttpResponseOk<String>, HttpError> {
     Ok(HttpResponseOk("ok".into()))
 }
@@ -71,6 +86,17 @@ fn limit_api(ov: Option<usize>) -> ApiDescription<LimitCtx> {
     api.register(t).unwrap();
     api.register(u).unwrap();
     api.register(s).unwrap();
+    let mut wt = ApiEndpoint::new("lw_typed".into(), lw_typed, http::Method::PUT, "application/json", "/wtyped/{rest:.*}", ApiEndpointVersions::All);
+    let mut wu = ApiEndpoint::new("lw_untyped".into(), lw_untyped, http::Method::PUT, "application/octet-stream", "/wuntyped/{rest:.*}", ApiEndpointVersions::All);
+    let mut ws = ApiEndpoint::new("lw_stream".into(), lw_stream, http::Method::PUT, "application/octet-stream", "/wstream/{rest:.*}", ApiEndpointVersions::All);
+    if let Some(n) = ov {
+        wt = wt.request_body_max_bytes(n);
+        wu = wu.request_body_max_bytes(n);
+        ws = ws.request_body_max_bytes(n);
+    }
+    api.register(wt).unwrap();
+    api.register(wu).unwrap();
+    api.register(ws).unwrap();
     api.register(ApiEndpoint::new("l_health".into(), l_health, http::Method::GET, "application/json", "/health", ApiEndpointVersions::All)).unwrap();
     api
 }
@@ -106,6 +132,10 @@ pub struct LimitCase {
     pub plan: ChunkPlan,
     pub cuts: Vec<u16>,
     pub fill: u8,
+    /// 0: the plain route; 1: a wildcard route with a non-empty remainder; 2: a wildcard route reached
+    /// through its empty remainder; 3: the same with a trailing slash
+    #[serde(default)]
+    pub route: u8,
 }
 
 fn limit_case_strategy() -> impl Strategy<Value = LimitCase> {
@@ -128,8 +158,9 @@ fn limit_case_strategy() -> impl Strategy<Value = LimitCase> {
         ],
         proptest::collection::vec(0u16..1000, 0..4),
         any::<u8>(),
+        prop_oneof![3 => Just(0u8), 1 => Just(1u8), 2 => Just(2u8), 1 => Just(3u8)],
     )
-        .prop_map(|(default_ix, override_ix, extractor, len, plan, cuts, fill)| LimitCase { default_ix, override_ix, extractor, len, plan, cuts, fill })
+        .prop_map(|(default_ix, override_ix, extractor, len, plan, cuts, fill, route)| LimitCase { default_ix, override_ix, extractor, len, plan, cuts, fill, route })
 }
 
 fn body_of(extractor: u8, len: usize, fill: u8) -> Vec<u8> {
@@ -207,6 +238,12 @@ fn check_limit(rt: &tokio::runtime::Runtime, c: &LimitCase, st: &mut Stats) -> R
     }
     let body = body_of(c.extractor, len, c.fill);
     let (path, op) = [("/typed", "typed"), ("/untyped", "untyped"), ("/stream", "stream")][c.extractor as usize % 3];
+    let path = match c.route % 4 {
+        0 => path.to_string(),
+        1 => format!("/w{}/a/b", &path[1..]),
+        2 => format!("/w{}", &path[1..]),
+        _ => format!("/w{}/", &path[1..]),
+    };
     let ct = if c.extractor == 0 { "application/json" } else { "application/octet-stream" };
     let mut req = format!("PUT {} HTTP/1.1\r\nhost: verif\r\ncontent-type: {}\r\n", path, ct).into_bytes();
     let is_chunked = !matches!(c.plan, ChunkPlan::ContentLength);
@@ -226,10 +263,11 @@ fn check_limit(rt: &tokio::runtime::Runtime, c: &LimitCase, st: &mut Stats) -> R
     };
     let addr = server.local_addr();
     let desc = format!(
-        "server default {} / endpoint override {:?} => limit {}, {} body of {} bytes, {}",
+        "server default {} / endpoint override {:?} => limit {}, PUT {}, {} body of {} bytes, {}",
         default,
         ov,
         limit,
+        path,
         op,
         len,
         match &c.plan {
@@ -316,7 +354,7 @@ fn check_limit(rt: &tokio::runtime::Runtime, c: &LimitCase, st: &mut Stats) -> R
 }
 
 pub fn run(ctx: &mut Ctx) {
-    ctx.rule = "server default in {0,1,7,64,1024,4096,65536} x per-endpoint override in {none,0,1,10,100,5000,100000} x extractor in {TypedBody, UntypedBody, StreamingBody} x body length in {0, L-2..L+2, 2L, L+3..L+300, up to 1 MiB} x framing (content-length; chunked with a chunk boundary at L-2..L+2, fixed or mixed chunk sizes) x TCP write splits. Oracle: len <= L => 200 with identical length and hash and the handler sees limit L; len > L => 4xx, buffered handler not entered; no handler (streaming: running total after every chunk) ever observes more than L bytes; server healthy afterwards. non-trivial = |len-L| <= 2, or a chunk boundary within 2 of L, or an override different from the default; distinct by case".into();
+    ctx.rule = "server default in {0,1,7,64,1024,4096,65536} x per-endpoint override in {none,0,1,10,100,5000,100000} x extractor in {TypedBody, UntypedBody, StreamingBody} x route shape (plain; wildcard route with non-empty / empty remainder) x body length in {0, L-2..L+2, 2L, L+3..L+300, up to 1 MiB} x framing (content-length; chunked with a chunk boundary at L-2..L+2, fixed or mixed chunk sizes) x TCP write splits. Oracle: len <= L => 200 with identical length and hash and the handler sees limit L; len > L => 4xx, buffered handler not entered; no handler (streaming: running total after every chunk) ever observes more than L bytes; server healthy afterwards. non-trivial = |len-L| <= 2, or a chunk boundary within 2 of L, or an override different from the default; distinct by case".into();
     ctx.assume("an empty body for the JSON extractor is replaced by a 1-byte body (an empty body is not JSON, which is not this property)");
     ctx.max_shrink_iters = 500;
     let rt = tokio::runtime::Builder::new_multi_thread().worker_threads(3).enable_all().build().unwrap();
